@@ -27,19 +27,23 @@ NOT_DECIDED = ("the lexer's classification of arbitrary default text (default_is
 ASSUMPTIONS = ["the classifier default_is_dynamic is treated as an oracle; trees of depth <= 3 represent the placement logic, which only tests `type == repeat` along the ancestor chain"]
 
 
-def scan_tokens(rules_map: dict, text: str):
+def scan_tokens(rules_map: dict, text: str, with_spans: bool = False):
     """re.Scanner semantics on the folded lexer table: at each position the first rule (in table order) that matches
     wins.  The table is a constant of the analysed program; this is a membership decision on that constant."""
     import re as _re
     rx = _re.compile("|".join(f"(?P<g{i}>{pat})" for i, pat in enumerate(rules_map.values())))
     names = list(rules_map)
     out, pos = [], 0
+    spans = []
     while pos < len(text):
         m = rx.match(text, pos)
         if not m or m.end() == pos:
             break
         out.append((names[int(m.lastgroup[1:])], m.group(0)))
+        spans.append((m.start(), m.end()))
         pos = m.end()
+    if with_spans:
+        return [(n, v, a, b) for (n, v), (a, b) in zip(out, spans)], text[pos:]
     return out, text[pos:]
 
 
